@@ -111,7 +111,7 @@ const SCALAR_MODULES: [&str; 9] = [
 ];
 /// Three enums of the probe schema, one name that is not in the schema, two key look-alikes.
 const ENUM_NAMES: [&str; 6] = ["Direction", "Color", "units_kind", "Elsewhere", "deprecated", "skip_serializing_none"];
-const VISIBILITIES: [&str; 4] = ["", "pub", "pub(crate)", "pub(super)"];
+const VISIBILITIES: [&str; 5] = ["", "pub", "pub(crate)", "pub(super)", "pub(in crate::outer)"];
 
 const DECOYS: [&str; 10] = [
     "#[derive(Debug)]",
@@ -649,6 +649,25 @@ impl Env {
             std::fs::write(&p, body).map_err(|e| format!("write {}: {}", p.display(), e))?;
         }
         std::fs::write(dir.join("Cargo.toml"), "[package]\nname = \"consumer\"\nversion = \"0.0.0\"\n").map_err(|e| e.to_string())?;
+        // rustc runs a workspace member's derive with the *workspace root* as working directory:
+        // a decoy root holds different files under the same relative paths, so resolving against the
+        // current directory instead of CARGO_MANIFEST_DIR is observable
+        let decoy = scratch.dir.join("workspace-root");
+        for rel in SCHEMA_PATHS.iter().chain(QUERY_PATHS.iter()) {
+            let mut cur = decoy.clone();
+            let comps: Vec<&str> = rel.split('/').collect();
+            std::fs::create_dir_all(&cur).map_err(|e| e.to_string())?;
+            for c in &comps[..comps.len() - 1] {
+                if *c == ".." {
+                    cur.pop();
+                } else if *c != "." {
+                    cur.push(c);
+                }
+                let _ = std::fs::create_dir_all(&cur);
+            }
+            let _ = std::fs::write(decoy.join(rel), "type Query { decoyOnly: Int }\n");
+        }
+        std::env::set_current_dir(&decoy).map_err(|e| format!("chdir {}: {}", decoy.display(), e))?;
         let cwd = std::env::current_dir().map_err(|e| e.to_string())?;
         if cwd == dir {
             return Err("the scratch manifest directory must differ from the current directory".into());
